@@ -200,3 +200,9 @@ flow_mod!(c34_plain_sum, "c34_plain_sum");
 runner2x2!(run_c34_atomic_sum, c34_atomic_sum, atomic_sum, i32, i32, i32, (i32, i32));
 runner2x2!(run_c34_plain_sum, c34_plain_sum, plain_sum, i32, i32, i32, (i32, i32));
 runner2x2!(run_c34_keyed_counter, c34_keyed_counter, keyed_counter, (i32, i32), (i32, i32), (i32, i32), (i32, (i32, usize)));
+flow_mod!(c34_atomic_lww, "c34_atomic_lww");
+flow_mod!(c34_atomic_max, "c34_atomic_max");
+flow_mod!(c34_keyed_lww, "c34_keyed_lww");
+runner2x2!(run_c34_atomic_lww, c34_atomic_lww, atomic_lww, i32, i32, i32, (i32, Option<i32>));
+runner2x2!(run_c34_atomic_max, c34_atomic_max, atomic_max, i32, i32, i32, (i32, Option<i32>));
+runner2x2!(run_c34_keyed_lww, c34_keyed_lww, keyed_lww, (i32, i32), (i32, i32), (i32, i32), (i32, (i32, i32)));
